@@ -31,7 +31,7 @@ func checkC09(c *Ctx) {
 	r := c.Rep
 	p := c.Prog
 	r.Explain = "One clause of the property is decided: 'marshalling the returned packets never panics'. The numeric abstract interpreter evaluates every packet type's Marshal (and rtcp.Marshal / CompoundPacket.Marshal with the member encoders opaque) on an UNCONSTRAINED receiver — every field value and list length, list elements non-nil — which includes every packet a decoder can return (decoders append only fresh, non-nil elements: C01's B-NIL facts). Every index, slice bound (against the length), binary.BigEndian access, nil dereference, division, type assertion, negative make and loop in the reachable universe is an obligation that must be entailed at the instruction; slice-bound and binary-access obligations that relate two loops (the size function adds up the element sizes, the encoder advances its cursor by them: SourceDescription, CCFeedbackReport; ApplicationDefined's padding loop against the padding computed again in MarshalSize; TransportLayerCC's delta cursor, whose step is an if-then-else on the delta type, against packetLen's per-delta size by a case split over the values the type is compared with) are proved by the symbolic-sum engine E3 (cursor = base + prefix sum, buffer = base + full sum of the same per-element term, evaluated from the element encoder and from the size function; for CCFeedbackReport with len(buffer) = MarshalSize() re-established by C05's DET/ALN/LEN rules); REMB's normalisation loop `for bitrate >= 2^18 { bitrate /= 2 }` is decided by a geometric-progress rule of the numeric engine (the value entering the loop is a NaN or at most the clamp constant). A frozen table (c09Triaged) holds one fallback entry for TransportLayerCC's delta cursor in encoder forms outside the symbolic engine's reach; it is unused on the pinned tree. C09-SIZE: every element encoder returns, at its nil-error returns, exactly the number of octets its container reserves for it (symbolic identity between the length of the encoder's result and the size function of the same receiver, or a constant). The other clauses of the property — the re-encoded bytes are accepted again and decode to an equal packet list — relate run-time values of two executions and are NOT decided (the structural part of them is C02-LAY/C05/C16)."
-	r.RuleText = "C09-NOPANIC: B-IDX, B-SLC, B-BIN, B-NIL, B-DIV, B-TAS, B-MAKE, B-CALL, B-PANIC, T-LOOP over the universe of the 15 packet encoders, rtcp.Marshal and CompoundPacket.Marshal; an obligation the numeric engine leaves open is handed to the symbolic-sum engine (B-SLC, B-BIN), then to c09Triaged; undecided = failure. C09-SIZE: len(enc(x)) = size(x) for the 8 pairs of c09SizePairs."
+	r.RuleText = "C09-NOPANIC: B-IDX, B-SLC, B-BIN, B-NIL, B-DIV, B-TAS, B-MAKE, B-CALL, B-PANIC, T-LOOP over the universe of the 15 packet encoders, rtcp.Marshal and CompoundPacket.Marshal; an obligation the numeric engine leaves open is handed to the symbolic-sum engine (B-SLC, B-BIN), then to c09Triaged; undecided = failure. C09-SIZE: len(enc(x)) = size(x) for the 8 pairs of c09SizePairs. C09-OWNBUF: the []byte rtcp.Marshal and CompoundPacket.Marshal return aliases neither the packet list nor a global (effect analysis): decoded packets may refer to the received datagram (RawPacket, APP data, profile extensions), so a re-encoder that hands back or appends into a member's buffer writes into the datagram it was decoded from, and the next re-encoding differs."
 	r.Trusted = []string{"go/ssa, VTA call graph", "numeric engine checker/num", "effects analysis (purity of the opaque member encoders in the two datagram-level roots; determinism of the size functions)", "symbolic-sum engine checker/sum", "Go's panic conditions", "frozen table c09Triaged (1 fallback entry, unused on the pinned tree)", "table c09SizePairs (which size each container reserves: 8 entries, confirmed by reading the containers)"}
 	r.Assume = []string{
 		fmt.Sprintf("size domain: the re-encoded packet is at most %d octets (a decoded datagram is at most 65535 octets; above that CCFeedbackReport.Marshal does panic: its buffer length is computed in uint16)", c05MaxBytes),
@@ -158,6 +158,7 @@ func checkC09(c *Ctx) {
 		r.Unk("C09-NOPANIC", key, pos, fmt.Sprintf("not entailed in %d of %d context(s): %s%s", o.Failed, o.Seen, o.FailCtx, sumWhy))
 	}
 	c09Sizes(c, sm)
+	c09OwnBuffer(c, sm.an)
 	var stale []string
 	for k := range c09Triaged {
 		if !used[k] {
@@ -629,4 +630,34 @@ func noteTail(se *sum.Engine) string {
 		return ""
 	}
 	return " (" + se.Notes[len(se.Notes)-1] + ")"
+}
+
+// c09OwnBuffer (rule C09-OWNBUF): see RuleText. A decoded RawPacket IS a slice of the received
+// datagram; if rtcp.Marshal returned (or appended into) a member's own buffer, re-encoding the
+// decoded list would write the later members over the datagram the earlier ones still refer to.
+func c09OwnBuffer(c *Ctx, an *effects.Analysis) {
+	r, p := c.Rep, c.Prog
+	for _, spec := range []string{"Marshal", "CompoundPacket.Marshal"} {
+		fn := p.Func(spec)
+		if fn == nil {
+			r.Fatalf("unresolved anchor: %s", spec)
+			continue
+		}
+		r.Anchor("C09-OWNBUF", spec)
+		s := an.Sum[fn]
+		if s == nil || len(s.RetAlias) == 0 {
+			r.Unk("C09-OWNBUF", spec+"/result-owns-its-buffer", p.Pos(fn.Pos()), "no effect summary")
+			continue
+		}
+		det := ""
+		for k := 0; k < s.NRoots; k++ {
+			if s.RetAlias[0].Has(k) {
+				det += fmt.Sprintf(" root %d", k)
+			}
+		}
+		r.Check(s.RetAlias[0].Empty(), "C09-OWNBUF", spec+"/result-owns-its-buffer", p.Pos(fn.Pos()),
+			"the returned []byte aliases neither the packets handed in nor a global: members' encodings are copied into a buffer of its own",
+			"the returned []byte may alias the packets handed in (which may be slices of the received datagram):"+det)
+	}
+	r.Floor("C09-OWNBUF", 2)
 }
